@@ -92,12 +92,19 @@ func vsymBuildReadWorld(interval int32, cacheOn, hole, restart bool) *vsymReadWo
 		_, err := w.l.RestoreFromS3(ctx)
 		vsym_Assert(err == nil, "build/restore")
 	} else {
-		raw := vsymBatch(1, vsym_Bytes("payload", 3))
-		b, _ := NewRecordBatchFromBytes(raw)
-		res, err := w.l.AppendBatch(ctx, b)
-		vsym_Assert(err == nil, "build/append")
-		w.stored = append(w.stored, vsymStored{ack: vsymAck{res.BaseOffset, res.LastOffset, append([]byte(nil), b.Bytes...)}, region: 2, pos: 0, indexed: true})
-		w.body[2] = append(w.body[2], b.Bytes...)
+		// the unflushed tail: one batch, or (wide layout) three batches of different sizes
+		tail := []int{3}
+		if vsymReadWide {
+			tail = []int{3, 9, 0}
+		}
+		for _, plen := range tail {
+			raw := vsymBatch(1, vsym_Bytes("payload", plen))
+			b, _ := NewRecordBatchFromBytes(raw)
+			res, err := w.l.AppendBatch(ctx, b)
+			vsym_Assert(err == nil, "build/append")
+			w.stored = append(w.stored, vsymStored{ack: vsymAck{res.BaseOffset, res.LastOffset, append([]byte(nil), b.Bytes...)}, region: 2, pos: len(w.body[2]), indexed: true})
+			w.body[2] = append(w.body[2], b.Bytes...)
+		}
 	}
 	w.next = w.l.nextOffset
 	return w
